@@ -90,8 +90,10 @@ Definition fire_dc (c : cfg) (s : st) (t : Z) : st :=
   | _, _ => s
   end.
 
+Definition tmo (o : option Z) : Z := match o with Some x => x | None => 0 end.
+
 (* One reactor turn at time t: every delayed call that is due runs once, seeing time.time() = t.
-   (The two callbacks touch disjoint parts of the state, so their relative order is immaterial;
+   (The order of the two callbacks inside the turn is immaterial: TimersProofs.fire_commute;
    a re-armed timer expires at t + timeout + eps > t and is not run again in this turn.) *)
 Definition step (c : cfg) (s : st) (e : ev) : st :=
   match e with
@@ -99,12 +101,9 @@ Definition step (c : cfg) (s : st) (e : ev) : st :=
   | RxBad t => set_abandoned (stamp s t)
   | Tick t => set_now (fire_dc c (fire_ka c s t) t) t
   | Close t =>
-      let s1 := match cK c with
-                | Some k => apply_ka s t (connectionLost_ka t (last_rx s) k (use_ka s) (abandoned s) (ka s))
-                | None => s end in
-      let s2 := match cT c with
-                | Some d => apply_dc s1 t (connectionLost_dc t (last_rx s1) d (use_ka s1) (abandoned s1) (dc s1))
-                | None => s1 end in
+      (* Banana.connectionLost runs both `if self.<x>Timer:` blocks whether or not a timeout is configured *)
+      let s1 := apply_ka s t (connectionLost_ka t (last_rx s) (tmo (cK c)) (use_ka s) (abandoned s) (ka s)) in
+      let s2 := apply_dc s1 t (connectionLost_dc t (last_rx s1) (tmo (cT c)) (use_ka s1) (abandoned s1) (dc s1)) in
       set_closed (set_now s2 t)
   end.
 
@@ -186,24 +185,3 @@ Definition reply_bytes (h ty : Z) : res (list Z) :=
   if ty =? tok_PING then match on_PING with ActPongHeader => sendPONG h [] | ActIgnore => Ok [] end
   else if ty =? tok_PONG then match on_PONG with ActPongHeader => sendPONG h [] | ActIgnore => Ok [] end
   else Ok [].
-
-(* The same dispatch with the receiver's discard state: d = discardCount (> 0 while the rest of a rejected or
-   aborted sequence is being skipped), i = number of non-PING/PONG tokens seen so far, `bad i t` = the unslicer
-   stack raises a Violation on (or the sender ABORTs at) the i-th token.  The bookkeeping of d is a coarse
-   abstraction of handleViolation (C07 owns the exact one); what matters here is that the PING and PONG
-   clauses come first in every state: handleData reaches `elif typebyte == PING` whether or not
-   `rejected` is set. *)
-Fixpoint rx_disc (bad : nat -> tok -> bool) (d i : nat) (toks : list tok) {struct toks} : list tok * list Z :=
-  match toks with
-  | [] => ([], [])
-  | (h, ty) :: r =>
-      if ty =? tok_PING then let '(dl, p) := rx_disc bad d i r in (dl, act on_PING h ++ p)
-      else if ty =? tok_PONG then let '(dl, p) := rx_disc bad d i r in (dl, act on_PONG h ++ p)
-      else match d with
-           | O => if bad i (h, ty) then rx_disc bad 1 (S i) r
-                  else let '(dl, p) := rx_disc bad O (S i) r in ((h, ty) :: dl, p)
-           | S d' => if ty =? tok_OPEN then rx_disc bad (S d) (S i) r
-                     else if ty =? tok_CLOSE then rx_disc bad d' (S i) r
-                     else rx_disc bad d (S i) r
-           end
-  end.
